@@ -102,6 +102,17 @@ theorem getMsgStep_malformed (e s : List Nat) (l : Local) (t : Nat) (rest : List
   have ht : (popped l rest).me.txDead = false := htx
   simp_all [Msg.ct, Msg.hsType, sendError_open, popped]
 
+/-- a KeyUpdate that does not end its record -/
+theorem getMsgStep_kuco (e s : List Nat) (l : Local) (v : Nat) (rest : List Rec)
+    (hopen : l.me.closed = false) (htx : l.me.txDead = false)
+    (hin : l.inc.recs = ⟨l.me.readGen, .kuCoalesced v⟩ :: rest) (hct : e.contains 22 = true) :
+    getMsgStep e s l = (.err (.localAlert 10), fatalOn (popped l rest) 10) := by
+  unfold getMsgStep
+  rw [nextRecord_head l _ rest hin (by simp) (by simp)]
+  have ho : (popped l rest).me.closed = false := hopen
+  have ht : (popped l rest).me.txDead = false := htx
+  simp_all [Msg.ct, Msg.hsType, sendError_open, popped]
+
 /-- an expected, allowed, well-formed message is handed to the caller -/
 theorem getMsgStep_got (e s : List Nat) (l : Local) (m : Msg) (rest : List Rec)
     (hin : l.inc.recs = ⟨l.me.readGen, m⟩ :: rest)
@@ -176,6 +187,7 @@ theorem readIter_of_step_got (is13 : Bool) (allowed : List Nat) (l l1 : Local) (
 def fatalDesc (e : End) (m : Msg) : Option Nat :=
   match m with
   | .keyUpdate v => if e.ver13 then (if v == 0 || v == 1 then none else some 47) else some 10
+  | .kuCoalesced _ => some 10
   | .hsMalformed t =>
     if e.ver13 then (if (allowedHs e).contains t then some 50 else some 10)
     else if t == renegType e.isClient then none else some 10
@@ -201,7 +213,7 @@ def fatalDesc (e : End) (m : Msg) : Option Nat :=
   | .alert .. => none
 
 theorem allowedHs_cases (e : End) :
-    allowedHs e = [4, 24, 13] ∨ allowedHs e = [24, 11] ∨ allowedHs e = [4, 24] ∨ allowedHs e = [24] := by
+    allowedHs e = [4, 24, 13] ∨ allowedHs e = [24, 11, 25] ∨ allowedHs e = [4, 24] ∨ allowedHs e = [24] := by
   unfold allowedHs
   split
   · exact Or.inl rfl
@@ -254,6 +266,9 @@ theorem readIter_fatal (l : Local) (m : Msg) (rest : List Rec) (d : Nat)
       simp only [if_true] at hg
       unfold readIter
       simp [hg, handleKeyUpdate, hv0, hv1, sendError_open, hpo, hpt]
+    | kuCoalesced v =>
+      simp [fatalDesc] at hd; subst hd
+      exact hfin (getMsgStep_kuco _ _ l v rest hopen htx hin (by decide))
     | hsMalformed t =>
       simp only [fatalDesc, h13, if_true] at hd
       split at hd
